@@ -133,6 +133,21 @@ CHECKS = {
             'namespace surviving a namespace re-connect) classifies that one '
             'history pattern as KNOWN-FINDING, everything else is a '
             'VIOLATION.'),
+    'C19': ('DESIGN 4/C19',
+            'Seeded search over producer/consumer schedules: a consumer '
+            'script (receive with timeout None/small/large, emit, call, '
+            'sleep) on SimpleClient (thread world, uniform random and PCT '
+            'schedules with pre-emption at every event primitive and every '
+            'input_buffer operation; engine.io itself not pre-empted inside) '
+            'and AsyncSimpleClient (await-point interleavings via seeded '
+            'arrival times) against a real server emitting a numbered '
+            'stream, with losses of connection followed by successful '
+            'reconnection, exhausted reconnection and server DISCONNECT; '
+            'oracle = receive() returns exactly the arrival sequence, '
+            'TimeoutError only while nothing is available, DisconnectedError '
+            'only after the final end and after the buffer is drained, no '
+            'consumer blocked at quiescence with input available or after '
+            'the final end, emit/call wait out a reconnection.'),
     'C20': ('DESIGN 4/C20',
             'Seeded search over thread interleavings (uniform random and PCT '
             'd=1..3) of 2-3 concurrent terminating actions on one sid of the '
